@@ -26,7 +26,7 @@ CHECKS = {
     ),
     "C03": dict(
         rules="R03.1-R03.17 (+R20.1 bound via C20)",
-        what="order of the re-processing pipeline in reprocess_nodes and of the propagation loop; type snapshots read every __eq__ field; component-coverage matrix of the astmerge / deps / astdiff type visitors; the follow-imports walk queues every module found changed (never filtered by the set the finder marks); every daemon check response computes its status by main()'s predicate; list/set twin fields of a build State are written together; `not in` generates the __contains__ dependency; a partial re-check regenerates the ignore-comment diagnostics a whole-module update produces (two known findings); MRO walks in the dependency visitor add the member dependency for every base visited; protocol-dependency filters test module names; Var flags that decide member-access diagnostics are in the Var snapshot",
+        what="order of the re-processing pipeline in reprocess_nodes and of the propagation loop; type snapshots read every __eq__ field; component-coverage matrix of the astmerge / deps / astdiff type visitors; the follow-imports walk queues every module found changed (never filtered by the set the finder marks); every daemon check response computes its status by main()'s predicate; list/set twin fields of a build State are written together; `not in` generates the __contains__ dependency; a partial re-check regenerates the ignore-comment diagnostics a whole-module update produces (two known findings); MRO walks in the dependency visitor add the member dependency for every base visited; protocol-dependency filters test module names; Var flags that decide member-access diagnostics are in the Var snapshot; relative imports are resolved against the containing module's id, not a target name, at every call in mypy/server (R03.18)",
         quant="edit histories checked after every step",
         technique="CFG must-pass-through ordering, sibling cross-check (__eq__ fields vs snapshot reads), component-coverage matrix",
         note="Completeness of deps.py dependency generation per construct and of symbol snapshots is semantic and not decided. tables/R03.2.json and R03.3.json list the read deviants; entries marked (unproven) are informational.",
